@@ -151,6 +151,10 @@ def make_scores(rng, n, K, style):
     return tag8, dep8
 
 
+class ParserRaised(Exception):
+    pass
+
+
 def run_instance(h, g, n, tag8, dep8, cfg, eid):
     """cfg: pen8, k, prune, usebeta, b16, maxstep.  Returns (event, meta)."""
     from depccg.types import Token, ScoringResult
@@ -162,9 +166,13 @@ def run_instance(h, g, n, tag8, dep8, cfg, eid):
     dep = np.array(dep8, dtype=np.float32) / 8
     beta = math.exp(-cfg['b16'] / 16.0)
     h.rt.pops_clear()
-    res = h.parsing.run([toks], [ScoringResult(tag.copy(), dep.copy())], list(lex), list(g['roots']), g['bin'], g['un'],
-                        unary_penalty=cfg['pen8'] / 8.0, beta=beta, use_beta=cfg['usebeta'], pruning_size=cfg['prune'],
-                        nbest=cfg['k'], max_step=cfg['maxstep'], max_length=250)[0]
+    try:
+        res = h.parsing.run([toks], [ScoringResult(tag.copy(), dep.copy())], list(lex), list(g['roots']), g['bin'], g['un'],
+                            unary_penalty=cfg['pen8'] / 8.0, beta=beta, use_beta=cfg['usebeta'], pruning_size=cfg['prune'],
+                            nbest=cfg['k'], max_step=cfg['maxstep'], max_length=250)[0]
+    except Exception as e:
+        # well-formed input: the search neither returned trees nor the failure placeholder
+        raise ParserRaised(repr(e)[:300])
     pops = h.rt.pops()
     prios = [_exact8(p['in'] + p['out'], 'priority') for p in pops[:4000]]
     failed = len(res) >= 1 and res[0].score == -float('inf')
@@ -280,7 +288,12 @@ def run_specs_parallel(specs, name, stall_s=120):
                         f.write(json.dumps({'start': i}) + '\n')
                         f.flush()
                         g, n, tag8, dep8, cfg = specs[i]
-                        ev, meta = run_instance(h, g, n, tag8, dep8, cfg, i + 1)
+                        try:
+                            ev, meta = run_instance(h, g, n, tag8, dep8, cfg, i + 1)
+                        except ParserRaised as e:
+                            f.write(json.dumps({'raised': i, 'why': str(e)}, ensure_ascii=True) + '\n')
+                            f.flush()
+                            continue
                         f.write(json.dumps({'done': i, 'ev': ev, 'meta': meta}, ensure_ascii=True) + '\n')
                         f.flush()
                 os._exit(0)
@@ -313,6 +326,12 @@ def run_specs_parallel(specs, name, stall_s=120):
                         metas[i] = r['meta']
                         if i in pending[w]:
                             pending[w].remove(i)
+                        cur = None
+                    elif 'raised' in r:
+                        i = r['raised']
+                        if i in pending[w]:
+                            pending[w].remove(i)
+                            hangs.append((i, 'parser raised: ' + r['why']))
                         cur = None
                     elif 'crash' in r:
                         raise Machinery('parser worker crashed: %s' % r['crash'])
@@ -390,7 +409,9 @@ def run_family(prop, tier):
     for (i, why) in hangs:
         m = hang_event(specs[i], i + 1)
         m['hang'] = why
-        viols.append(Violation(prop, prop + '.search_did_not_terminate', '%s N=%d tag=%s dep=%s cfg=%s' % (m['grammar'], m['N'], m['tag_x8'], m['dep_x8'], sorted(m['config'].items())), m))
+        m['result'] = why if why.startswith('parser raised') else m['result']
+        clause = '.search_raised_on_wellformed_input' if why.startswith('parser raised') else '.search_did_not_terminate'
+        viols.append(Violation(prop, prop + clause, '%s N=%d tag=%s dep=%s cfg=%s' % (m['grammar'], m['N'], m['tag_x8'], m['dep_x8'], sorted(m['config'].items())), m))
     other = {}
     for (i, clause) in rejects:
         if clause.startswith(prop + '.'):
